@@ -26,12 +26,20 @@ def case_st(draw):
     n = simgen.n_trx(cfg)
     script = draw(simgen.tune_script(n))
     txs = []
+    fn_st = st.one_of(S.fn(), S.fn(), st.builds(lambda k, d: (k * 1326 + d) % 2715648, st.integers(0, 2047), st.integers(-3, 1)))
+    cmd_st = st.one_of(
+        st.tuples(st.integers(0, n - 1), st.sampled_from(["RXTUNE", "TXTUNE"]), st.sampled_from(simgen.FREQ_POOL).map(lambda f: [str(f)])),
+        st.tuples(st.integers(0, n - 1), st.just("SETFH"), simgen.setfh_args()))
     for _ in range(draw(st.integers(1, 8))):
-        txs.append({"t": draw(st.integers(0, n - 1)), "fn": draw(S.fn()), "tn": draw(st.integers(0, 7)),
+        txs.append({"t": draw(st.integers(0, n - 1)), "fn": draw(fn_st), "tn": draw(st.integers(0, 7)),
                     "pwr": draw(st.one_of(st.integers(0, 60), st.integers(0, 60), st.integers(0, 255))),
                     "bits": draw(simgen.burst_bits()),
                     "retune": draw(st.one_of(st.none(), st.none(), st.tuples(st.integers(0, n - 1), st.sampled_from(["RXTUNE", "TXTUNE"]),
-                                                                             st.sampled_from(simgen.FREQ_POOL))))})
+                                                                             st.sampled_from(simgen.FREQ_POOL)))),
+                    # re-configuration that arrives while the burst is already queued (between enqueue and its tick)
+                    "between": draw(st.one_of(st.just([]), st.just([]), st.lists(cmd_st, min_size=1, max_size=2))),
+                    # the same sender goes on transmitting in the following frames (consecutive ticks)
+                    "stream": draw(st.sampled_from([0, 0, 0, 2, 5]))})
     return {"cfg": cfg, "script": script, "txs": txs}
 
 
@@ -45,8 +53,13 @@ def oracle(case):
                 i, verb, f = tx["retune"]
                 s.cmd(i, verb, [str(f)])
             i = tx["t"]
-            s.arrive(i, {"ver": s.model.trx[i].ver, "fn": tx["fn"], "tn": tx["tn"], "pwr": tx["pwr"], "bits": tx["bits"]})
-            s.tick(tx["fn"])
+            for k in range(tx.get("stream", 0) + 1):
+                fn = (tx["fn"] + k) % 2715648
+                s.arrive(i, {"ver": s.model.trx[i].ver, "fn": fn, "tn": tx["tn"], "pwr": tx["pwr"], "bits": tx["bits"]})
+                if k == 0:
+                    for (j, verb, args) in tx.get("between", []):
+                        s.cmd(j, verb, list(args))
+                s.tick(fn)
         nt = any((f["recipients"] >= 1 and f["running_nonrecipients"] >= 1) or f["hopping"] for f in s.fwd_log)
         cl = ["trx=%d" % s.n]
         if any(f["hopping"] for f in s.fwd_log):
